@@ -9,7 +9,7 @@ from ..model import empty_prog, is_int, walk
 
 PROPERTY = "C17"
 RULE = (
-    "Programs in the fragment all front ends can express (0-3 lets, one register sized by literal or let, gates with "
+    "Programs in the fragment all front ends can express (0-2 pulse imports of modules that cannot be loaded, 0-3 lets - a let may be defined from an earlier constant of the same value, which Q.let documents -, one register sized by literal or let, gates with "
     "numeric / let / qubit arguments incl. let-valued indices, legally nested sequential/parallel blocks, loops with "
     "sequential bodies and subcircuits with literal or let-valued counts); every let and the register is either "
     "user-named - with probability 1/2 from the auto-namer's own forms __r0..__r2 / __c0..__c2 - or anonymous.  The "
@@ -28,6 +28,9 @@ ASSUMPTIONS = ["Q-syntax cannot express aliases, macros or parallel loop bodies:
 USER_LET = ["a", "n", "th", "__c0", "__c1", "__r0", "__c2"]
 USER_REG = ["q", "r", "__r0", "__c0", "__r1"]
 GATES = ["g", "h", "Rx", "MS"]
+# pulse modules that cannot be imported: Q-syntax's default autoload_pulses="ignore" then keeps
+# the gates anonymous, like parse(..., autoload_pulses=False)
+Q_PULSES = ["nosuch_a.b", "nosuch_mod", ".nosuch_local", "nosuch.v1.std"]
 
 
 def _case(ch):
@@ -115,7 +118,14 @@ def _case(ch):
             ]
         )
         body = [lead] + body
-    return {"lets": lets, "reg": [rname, rsize], "body": body, "oo_seed": ch.int(0, 10**6)}
+    # Q.let is documented to take a QConstant too (the value is copied): the same program
+    let_from = {}
+    for i, (_n, v) in enumerate(lets):
+        same = [j for j in range(i) if type(lets[j][1]) is type(v) and lets[j][1] == v]
+        if same and ch.bool():
+            let_from[str(i)] = ch.pick(same)
+    usep = ch.sample(Q_PULSES, ch.int(1, 2)) if ch.int(0, 3) == 0 else []
+    return {"lets": lets, "reg": [rname, rsize], "body": body, "oo_seed": ch.int(0, 10**6), "usepulses": usep, "let_from": let_from}
 
 
 # ------------------------------------------------------------------------------ reference wrap rule
@@ -146,8 +156,22 @@ def build_q(case):
 
     lets, reg, body = case["lets"], case["reg"], case["body"]
 
+    let_from = case.get("let_from") or {}
+
     def program(Q):
-        L = [Q.let(v, name=n) if n is not None else Q.let(v) for n, v in lets]
+        for k, m in enumerate(case.get("usepulses") or []):
+            if k % 3 == 0:
+                Q.usepulses(m)
+            elif k % 3 == 1:
+                Q.usepulses(m, "*")
+            else:
+                Q.usepulses(m, all)
+        L = []
+        for i, (n, v) in enumerate(lets):
+            j = let_from.get(str(i))
+            if j is not None and j < i and type(lets[j][1]) is type(v) and lets[j][1] == v:
+                v = L[j]
+            L.append(Q.let(v, name=n) if n is not None else Q.let(v))
         size = L[int(reg[1][2:])] if isinstance(reg[1], str) else reg[1]
         R = Q.register(size, name=reg[0]) if reg[0] is not None else Q.register(size)
 
@@ -192,6 +216,7 @@ def build_q(case):
 def named_prog(case, let_names, reg_name, wrap):
     p = empty_prog()
     p["lets"] = [[n, v] for n, (_u, v) in zip(let_names, case["lets"])]
+    p["usepulses"] = list(case.get("usepulses") or [])
 
     def nm(x):
         if isinstance(x, str) and x.startswith("@L"):
@@ -229,6 +254,8 @@ def build_oo(prog, seed):
     ch = gen.Chooser(seed)
     cb = CircuitBuilder()
     consts = {}
+    for m in prog["usepulses"]:
+        cb.usepulses(m)
     for n, v in prog["lets"]:
         consts[n] = cb.let(n, v)
     rname, rsize = prog["reg"]
@@ -279,6 +306,8 @@ def build_oo(prog, seed):
 def check(case):
     from jaqalpaq.core.circuitbuilder import build
 
+    if len(case["reg"]) != 2 or any(len(l) != 2 for l in case["lets"]):
+        raise Skip()  # a shrink candidate outside the case format
     user_names = [n for n, _v in case["lets"] if n is not None] + ([case["reg"][0]] if case["reg"][0] is not None else [])
     if len(set(user_names)) != len(user_names):
         raise Skip()
@@ -329,6 +358,7 @@ def check(case):
     has_sub_or_letcount = any(s[0] == "sub" or (s[0] in ("loop", "sub") and isinstance(s[1], str)) for s in walk(case["body"]))
     autoform = any(n.startswith("__") for n in user_names) and bool(anon)
     classes = ["wrap:%s" % wrap, "anon:%d" % len(anon)] + (["user-name-of-auto-form"] if any(n.startswith("__") for n in user_names) else [])
+    classes += ["usepulses:%d" % len(case.get("usepulses") or [])] + (["let-from-constant"] if case.get("let_from") else [])
     return {"nontrivial": (d >= 2 and has_sub_or_letcount) or autoform, "classes": classes, "key": repr(case), "sample": {"text": text, "auto_names": anon, "wrapped": wrap}}
 
 
